@@ -309,7 +309,7 @@ class Spec(PropSpec):
     assumptions = [
         "theorems are stated on the connection-level system `cstep` built from the same per-TCB functions as the kernel model (c06_kernel_uses_tcb_on_conn); the kernel model is what the correspondence checks against the implementation",
         "segments of an earlier incarnation of the same 4-tuple are outside the connection-level system (client ports are never reused before 16384 further connects)",
-        "sequence numbers: the theorems are stated on unbounded naturals (side condition: every live sequence distance - in flight, window, send/receive buffer - stays below 2^31; that the code's wrapping_sub/wrapping_add/== then agree with them is PROVED for handle_established, segment_one and segment_all's filter by tcb_on_seg_wrap, seg_step_wrap, transmittable_wrap (coq/NetTcp/Wrap.v, WrapTcb.v, checked with C16; tight: wrap_tight), the remaining sites - handshake equalities, probe sequence - by the site lemmas of Wrap.v; caps and windows are at most 65535/70000); the model's wire encoding is mod 2^32 and the deterministic `wrap` family of C06 (ISN = 2^32-k on both hosts via verif hook 71a27bd, k in {1,100,1460,5000}, both roles, both directions, with and without loss) checks model/implementation correspondence and the byte-stream oracle across the wrap", "packet duplication is modelled although the property excludes it",
+        "sequence numbers: the theorems are stated on unbounded naturals (side condition: every live sequence distance - in flight, window, send/receive buffer - stays below 2^31; that the code's wrapping_sub/wrapping_add/== then agree with them is PROVED for the whole inbound per-connection handler (handshake states + handle_established), the TCB literals of connect / accept_syn, segment_one and segment_all's filter by tcb_on_conn_wrap, tcb_on_seg_wrap, fresh_tcb_wrap, seg_step_wrap, transmittable_wrap (coq/NetTcp/Wrap.v, WrapTcb.v, checked with C16; tight: wrap_tight), the remaining sites - handshake equalities, probe sequence - by the site lemmas of Wrap.v; caps and windows are at most 65535/70000); the model's wire encoding is mod 2^32 and the deterministic `wrap` family of C06 (ISN = 2^32-k on both hosts via verif hook 71a27bd, k in {1,100,1460,5000}, both roles, both directions, with and without loss) checks model/implementation correspondence and the byte-stream oracle across the wrap", "packet duplication is modelled although the property excludes it",
         "waker delivery is not modelled: the theorems say what a poll returns, the harness polls with a no-op waker",
         "liveness (c06_quiescent_complete) is deadlock-freedom over the schedules `fair_run`: nothing injected, no pure window update (the ACK a read emits) dropped before it was delivered or overtaken by an older segment; everything else may be lost, duplicated, reordered; the timed no-spurious-abort statement is partial (exact abort timing proved, environment derivation not)",
     ]
